@@ -27,6 +27,7 @@ from engine.nbsym import Executor, State, SBytes, Val, HashToken, types, cast, m
 
 PID = "C14"
 DEPTH = 8
+OTHER_DEPTHS = (2, 3, 5, 6, 7)
 W0 = 4  # physical width of the dense table; the kernel's `width` argument is symbolic in 1..W0
 
 
@@ -111,7 +112,19 @@ def _run_kernel(kind):
 KINDS = ["cm_linear-query", "cm_linear-add", "cm_log16-query", "cm_log16-add", "cm_log8-query", "cm_log8-add", "hh-add", "hh-maxcount"]
 
 
-def ob_seeds(kind, timeout_ms):
+def ob_seeds(kind, timeout_ms, depth=None):
+    """depth: the sketch depth the kernel is unrolled for (default DEPTH = 8); the property's scope names depths 2..8 and a
+    seed expression may depend on the depth (e.g. a mask that is the identity only for powers of two)"""
+    global DEPTH
+    saved = DEPTH
+    DEPTH = depth or saved
+    try:
+        return _ob_seeds(kind, timeout_ms)
+    finally:
+        DEPTH = saved
+
+
+def _ob_seeds(kind, timeout_ms):
     stats = common.Stats()
     rec, width, post, ex, key = _run_kernel(kind)
     funcs = sorted(ex.funcs_encoded)
@@ -125,7 +138,7 @@ def ob_seeds(kind, timeout_ms):
     if any(len(c["mods"]) != 1 for c in calls):
         problems.append("a hash value is not reduced modulo the width exactly once")
     if problems:
-        cex = {"kind": "seeds", "kernel": kind, "problems": problems, "width": 3}
+        cex = {"kind": "seeds", "kernel": kind, "problems": problems, "width": 3, "depth": DEPTH}
         return {"status": "cex", "stats": stats.as_dict(), "funcs": funcs, "cex": cex, "replay": replay(cex), "finding_key": "seeds-structure"}
     goals = [("every hash value is reduced modulo the sketch's width", z3.And(*[c["mods"][0] == width for c in calls])),
              ("the row seeds are pairwise distinct for every width", z3.Distinct(*[c["seed"] for c in calls]) if len(calls) > 1 else z3.BoolVal(True))]
@@ -135,7 +148,7 @@ def ob_seeds(kind, timeout_ms):
             continue
         if r != "sat":
             return {"status": "unknown", "stats": stats.as_dict(), "funcs": funcs, "note": r}
-        cex = {"kind": "seeds", "kernel": kind, "width": ev(m, width), "seeds": [ev(m, c["seed"]) for c in calls], "clause": name}
+        cex = {"kind": "seeds", "kernel": kind, "width": ev(m, width), "seeds": [ev(m, c["seed"]) for c in calls], "clause": name, "depth": DEPTH}
         return {"status": "cex", "stats": stats.as_dict(), "funcs": funcs, "cex": cex, "replay": replay(cex), "finding_key": "seeds-collide"}
     return {"status": "proved", "stats": stats.as_dict(), "funcs": funcs}
 
@@ -325,22 +338,23 @@ def replay(cex):
         also = sum(1 for (i, j) in pairs if cols[i][b] == cols[j][b])
         return {"reproduced": len(pairs) >= 20 and also == len(pairs), "pairs_colliding_in_first_row": len(pairs), "of_which_collide_in_second_row": also,
                 "how": f"300 random 8-byte keys placed in real empty sketches of width {W}: every pair that shares its cell in row {a} also shares it in row {b} (expected fraction for independent rows: 1/{W})"}
+    D = int(cex.get("depth", DEPTH))
     widths = sorted(set([cex.get("width", 3), 3, 5, 7, 63]))
     fails = []
     rnd = random.Random(5)
     kern = cex.get("kernel", "cm_linear-add")
     for w in widths:
         if kern.startswith("hh"):
-            mk = lambda: hhh.hh().HeavyHitters(w, DEPTH, 3, phi=0.5)
+            mk = lambda: hhh.hh().HeavyHitters(w, D, 3, phi=0.5)
             tab = "lhh_count"
         elif "log16" in kern:
-            mk = lambda: C.CountMinLog16(w, DEPTH)
+            mk = lambda: C.CountMinLog16(w, D)
             tab = "cms"
         elif "log8" in kern:
-            mk = lambda: C.CountMinLog8(w, DEPTH)
+            mk = lambda: C.CountMinLog8(w, D)
             tab = "cms"
         else:
-            mk = lambda: C.CountMinLinear(w, DEPTH)
+            mk = lambda: C.CountMinLinear(w, D)
             tab = "cms"
         cols = []
         for _ in range(200):
@@ -348,9 +362,9 @@ def replay(cex):
             k = bytes(rnd.randrange(1, 256) for _ in range(3))
             s.add(k)
             t = np.array(getattr(s, tab))
-            cols.append([int(np.argmax(t[r])) for r in range(DEPTH)])
-        for r1 in range(DEPTH):
-            for r2 in range(r1 + 1, DEPTH):
+            cols.append([int(np.argmax(t[r])) for r in range(D)])
+        for r1 in range(D):
+            for r2 in range(r1 + 1, D):
                 if w > 1 and all(c[r1] == c[r2] for c in cols):
                     fails.append(f"width {w}: rows {r1} and {r2} place all 200 random keys in the same column (same hash seed)")
                     break
@@ -366,6 +380,10 @@ def main():
     hhh.hh()
     tmo = 300000 if tier == "quick" else 1200000
     obs = [common.Ob(f"seeds distinct and modulo width: {k}", ob_seeds, (k, tmo), hard_s=tmo / 1000 * 2 + 120, bounds={"kernel": k, "depth": DEPTH, "width": f"symbolic 1..{W0}"}) for k in KINDS]
+    # the other depths of the property's scope (2..8): a seed expression may depend on the depth
+    for d in OTHER_DEPTHS:
+        for k in (KINDS if tier != "quick" else [k for k in KINDS if k.endswith("query") or k.startswith("hh")]):
+            obs.append(common.Ob(f"seeds distinct and modulo width at depth {d}: {k}", ob_seeds, (k, tmo, d), hard_s=tmo / 1000 * 2 + 120, bounds={"kernel": k, "depth": d, "width": f"symbolic 1..{W0}"}))
     pairs = [("cm_linear", 0, 1, 16), ("cm_linear", 3, 7, 16), ("cm_log16", 1, 2, 32), ("cm_log8", 0, 5, 8), ("cm_linear", 2, 6, 13)] if tier == "quick" else \
         [(k, a, b, W) for k in ("cm_linear", "cm_log16", "cm_log8") for (a, b) in ((0, 1), (0, 7), (3, 7), (2, 5), (1, 6)) for W in (2, 16, 61, 128)]
     for (k, a, b, W) in pairs:
@@ -384,7 +402,7 @@ def main():
         funcs.update(r.get("funcs") or [])
     return common.finish(
         PID, tier, "model_checking", obs, results, t0=t0, funcs=funcs,
-        bounds={"seeds": f"depth {DEPTH}, width symbolic in 1..{W0} (the seed expressions do not depend on the table size), all 8 placing kernels", "independence_witnesses": [list(p) for p in pairs], "byte_sensitivity_key_lengths": sorted(sensL), "joint_coverage": [list(j) for j in joint]},
+        bounds={"seeds": f"depth {DEPTH} (all 8 placing kernels) and depths {list(OTHER_DEPTHS)} (quick: the query and heavy-hitter kernels, which fill `buckets` for the add kernels; thorough: all 8), width symbolic in 1..{W0} (the seed expressions do not depend on the table size), all 8 placing kernels", "independence_witnesses": [list(p) for p in pairs], "byte_sensitivity_key_lengths": sorted(sensL), "joint_coverage": [list(j) for j in joint]},
         stubs=["fasthash64 -> recorder of (key, seed term) in obligation (1); the REAL fasthash64 with precise bvmul in obligation (2)", "_log_counter -> identity (irrelevant to placement)", "64-bit multiplication uninterpreted in obligation (3) (sound for unsat; sat witnesses confirmed on the jitted hash)"],
         assumptions=["C11: fasthash64 is the published FastHash"],
         outside=["the statistical exp(-depth) bound itself and uniformity/independence of FastHash's output distribution: NOT decided (not encodable); only the necessary conditions above are claimed"],
